@@ -120,8 +120,11 @@ def c15(ctx):
     bad3, ev3, h3 = run_game_traces(ctx, "oddsbook", 2 if quick else 6, 0, 0, extra=["--reps", 4 if quick else 8, "--max-nodes", 60 if quick else 300])
     absorb_game(ctx, bad3, {"EngineMove"})
     ctx.extra["odds_game_book_nodes"] = h3
-    ctx.evaluations += ev + ev2 + ev3
-    ctx.nontrivial += hist + h2 + h3
+    # long capture-free histories: the engine asked beyond the move-count draw and beyond the third recurrence
+    bad4, ev4, h4 = run_game_traces(ctx, "longgame", 1, 0, 0, extra=["--rounds", 30 if quick else 70])
+    absorb_game(ctx, bad4, {"EngineMove"})
+    ctx.evaluations += ev + ev2 + ev3 + ev4
+    ctx.nontrivial += hist + h2 + h3 + h4
     # the real engine-versus-engine game loop, observed through what it prints
     import cli
     cli.watch_check(ctx, 40 if quick else 420)
